@@ -61,18 +61,19 @@ class Evaluator:
                     return self.attr_hook(d if d is not None else ast.unparse(n), n)
             return UNKNOWN
         if isinstance(n, ast.BoolOp):
-            vals = [self.ev(v) for v in n.values]
-            if isinstance(n.op, ast.And):
-                if any(v is not UNKNOWN and not v for v in vals):
-                    return False
-                if any(v is UNKNOWN for v in vals):
-                    return UNKNOWN
-                return vals[-1]
-            if any(v is not UNKNOWN and v for v in vals):
-                return True
-            if any(v is UNKNOWN for v in vals):
-                return UNKNOWN
-            return vals[-1]
+            # Python semantics (the deciding operand is the value) when every operand before it is known; three-valued truth otherwise
+            is_and = isinstance(n.op, ast.And)
+            unknown_seen = False
+            last = UNKNOWN
+            for sub in n.values:
+                v = self.ev(sub)
+                if v is UNKNOWN:
+                    unknown_seen = True
+                    continue
+                last = v
+                if bool(v) != is_and:          # falsy under `and`, truthy under `or`: decides
+                    return v if not unknown_seen else (not is_and)
+            return UNKNOWN if unknown_seen else last
         if isinstance(n, ast.UnaryOp) and isinstance(n.op, ast.Not):
             v = self.ev(n.operand)
             return UNKNOWN if v is UNKNOWN else (not v)
